@@ -2028,6 +2028,19 @@ func (fv *FuncVerifier) checkAssertsBefore(s ast.Stmt, st *State, after bool) {
 		if after {
 			at = s.End()
 		}
+		if ab.Havoc {
+			// interference: the named location may have been changed by another goroutine
+			tg := fv.evalLoopModTarget(ab.Clause, st, at)
+			fv.clauseCtx = saved
+			hn := heapName(tg.ref.Sort)
+			cur := fv.heap(st, tg.ref.Sort)
+			nh := fv.u.freshConst(hn, cur.Sort)
+			fv.nilMapAxiom(hn, nh)
+			fv.assumeFrame(st, []modTarget{tg}, tg.ref.Sort, cur, nh, "")
+			st.heaps[hn] = nh
+			fv.u.note("havoc after `%s`: %s is arbitrary from there on (interference), constrained only by the assume_after clauses that follow", ab.Anchor, ab.Clause.Text)
+			continue
+		}
 		t := fv.evalClauseHere(ab.Clause, st, at)
 		fv.clauseCtx = saved
 		if ab.LetName != "" {
